@@ -27,13 +27,18 @@ def _solve(job):
         A, Bq = {"smt.mbqi": False, "smt.arith.solver": 2}, {"smt.mbqi": False}
         if "(div " in text or "(mod " in text:
             A, Bq = Bq, A
-        attempts = [(A, 1, 12), (Bq, 1, 12), (A, 2, WALL_S), (Bq, 2, WALL_S), ({}, 1, WALL_S)]
+        # front end: "core" = z3.SimpleSolver (the SMT kernel alone) / "default" = z3.Solver (kernel behind z3's preprocessing
+        # tactics).  The preprocessing was measured to throw away the seed terms that contracts supply as E-matching hints
+        # (a 0.0 s proof became `unknown` after 20 s), so the kernel is tried first; the default front end stays in the schedule
+        # because it decides some arithmetic-heavy VCs faster.
+        attempts = [("core", A, 1, 12), ("default", A, 1, 12), ("default", Bq, 1, 12), ("core", Bq, 1, 12),
+                    ("default", A, 2, WALL_S), ("default", Bq, 2, WALL_S), ("default", {}, 1, WALL_S)]
         res, model, reason = "unknown", None, ""
-        for n_att, (opts, mult, wall) in enumerate(attempts):
+        for n_att, (front, opts, mult, wall) in enumerate(attempts):
             # a FRESH z3 context per attempt: the verdict then depends on the query text only, not on what this worker
             # process solved before (AST ids / symbol tables of a shared context were measured to flip 2 s proofs to unknown)
             zctx = z3.Context()
-            s = z3.Solver(ctx=zctx)
+            s = z3.SimpleSolver(ctx=zctx) if front == "core" else z3.Solver(ctx=zctx)
             s.set("rlimit", int(rlimit * mult))
             s.set("timeout", int(wall * 1000))
             for k_, v_ in opts.items():
@@ -42,7 +47,7 @@ def _solve(job):
             r = s.check()
             res = str(r)
             if r == z3.unsat:
-                reason = "" if n_att == 0 else "proved on attempt %d %r" % (n_att + 1, opts)
+                reason = "" if n_att == 0 else "proved on attempt %d (%s) %r" % (n_att + 1, front, opts)
                 break
             if r == z3.sat:
                 if want_model:
